@@ -178,8 +178,29 @@ func readStream(o ropts, data []byte, bad bool, chunk int) string {
 		rec, off, v, err := wf.Next()
 		switch {
 		case err == nil && rec != nil:
-			obs = append(obs, fmt.Sprintf("off=%d:rec;%s", off, showRecord(rec, v)))
+			shown := showRecord(rec, v)
+			obs = append(obs, fmt.Sprintf("off=%d:rec;%s", off, shown))
 			rec.Close()
+			// C04: the reported offset is a position from which a fresh reader returns this record
+			if !bad && off >= 0 && off <= int64(len(data)) {
+				if wf2, err2 := gowarc.NewWarcFileReaderFromStream(bytes.NewReader(data), off, o.options(dir, nil)...); err2 == nil {
+					rec2, off2, v2, err3 := wf2.Next()
+					same := err3 == nil && rec2 != nil && off2 == off
+					if same {
+						// (findings about skipped junk belong to the first reader's position, not to the record)
+						s2 := showRecord(rec2, v2)
+						strip := func(x string) string { return strings.Replace(strings.Replace(x, ";f=off,", ";f=", 1), ";f=off;", ";f=;", 1) }
+						same = strip(s2) == strip(shown)
+					}
+					if rec2 != nil {
+						rec2.Close()
+					}
+					wf2.Close()
+					if !same {
+						obs = append(obs, fmt.Sprintf("REOPEN-MISMATCH@%d", off))
+					}
+				}
+			}
 		case rec != nil:
 			obs = append(obs, fmt.Sprintf("off=%d:recerr:%s;f=%s", off, classify(err), kinds(v)))
 			rec.Close()
@@ -263,6 +284,9 @@ func runUnm(toks []string) (string, string) {
 				parts[len(parts)-1] = last[:strings.Index(last, ":")] + ":cut"
 				obs = strings.Join(parts, "|")
 			}
+		}
+		if i := strings.Index(obs, "|REOPEN-MISMATCH"); i >= 0 {
+			return strings.Replace(obs, obs[i:i+strings.Index(obs[i+1:]+"|", "|")+1], "", 1), "FAIL:reopen-mismatch:a fresh reader opened at a reported offset does not return the record reported there: " + obs[i+1:i+40]
 		}
 		if strings.Contains(obs, "NOPROGRESS") {
 			return obs, "FAIL:no-progress:Next returned a record without consuming input"
